@@ -524,7 +524,7 @@ def core_strategy(max_depth=3, breaks=True, printing=True, functions=True, max_l
             return body_st
 
         structs = [
-            st.lists(seq, min_size=1, max_size=3).map(lambda bs: ["if", bs]),
+            st.lists(seq, min_size=1, max_size=5).map(lambda bs: ["if", bs]),
             st.tuples(st.one_of(st.none(), st.sampled_from(["a", "i"])), seq).map(lambda t: ["for", t[0], t[1]]),
             # counter-form while: the condition duplicates the counter, the body ends by decrementing it
             seq.map(lambda b: ["while", [["el", ":"]], b + [["el", "‹"]]]),
